@@ -70,6 +70,7 @@ type setup struct {
 	auxSum    bool               // the neighbour is a Counter (its slot holds a metricdata.Sum: type assertion on reuse misses)
 	kind      int                // instrument kind of "h", see kindNames
 	cancelled bool               // record with an already cancelled context
+	fnBounds  []float64          // non-nil: a FUNCTION View (not validated by NewView) hands these boundaries to the aggregator
 	junkLater []float64          // caller-owned boundary slice, overwritten once the view / option has been built
 }
 
@@ -113,6 +114,16 @@ func newInst(s setup) inst {
 	popts := []metric.Option{metric.WithReader(r)}
 	if s.agg != nil && !s.viaReader {
 		popts = append(popts, metric.WithView(metric.NewView(metric.Instrument{Name: "h"}, metric.Stream{Aggregation: s.agg})))
+	}
+	if s.fnBounds != nil {
+		fb := s.fnBounds
+		var fv metric.View = func(i metric.Instrument) (metric.Stream, bool) {
+			if i.Name != "h" {
+				return metric.Stream{}, false
+			}
+			return metric.Stream{Name: i.Name, Aggregation: metric.AggregationExplicitBucketHistogram{Boundaries: fb}}, true
+		}
+		popts = append(popts, metric.WithView(fv))
 	}
 	if s.reuse && s.auxAgg != nil && !s.auxSum {
 		popts = append(popts, metric.WithView(metric.NewView(metric.Instrument{Name: "a"}, metric.Stream{Aggregation: s.auxAgg})))
@@ -885,6 +896,117 @@ func main() {
 			}
 		})
 	}
+	// Boundaries that reach the aggregator without validation (function View): unsorted, duplicated.
+	// The aggregator sorts its copy; the point must report the sorted list and bucket against it.
+	addExplicitRaw := func(given []float64, cumul, isInt bool, fb [][]float64, ib [][]int64, kind string) {
+		desc := map[string]any{"op": "explicit-function-view", "given": hexes(given), "cumulative": cumul, "int64": isInt}
+		guard(desc, func() {
+			in := newInst(setup{fnBounds: append([]float64{}, given...), cumul: cumul, isInt: isInt})
+			var allF []float64
+			var allI []int64
+			nb := len(fb)
+			if isInt {
+				nb = len(ib)
+			}
+			for k := 0; k < nb; k++ {
+				if isInt {
+					for _, v := range ib[k] {
+						in.recI(v, false)
+					}
+					if cumul {
+						allI = append(allI, ib[k]...)
+					} else {
+						allI = ib[k]
+					}
+				} else {
+					for _, v := range fb[k] {
+						in.recF(v, false)
+					}
+					if cumul {
+						allF = append(allF, fb[k]...)
+					} else {
+						allF = fb[k]
+					}
+				}
+				if len(allF)+len(allI) == 0 {
+					in.collect()
+					continue
+				}
+				ob := obsExplicit(in.collect())
+				cd := map[string]any{"config": desc, "collect": k}
+				if !ob.ok || !ob.mm {
+					w.Violation("no explicit histogram data point with min/max after recording (function view)", cd)
+					continue
+				}
+				vals := fnums(allF)
+				if isInt {
+					vals = inums(allI)
+					cd["values"] = allI
+				} else {
+					cd["values"] = hexes(allF)
+				}
+				cd["reported_bounds"] = hexes(ob.bounds)
+				w.Tally(fmt.Sprintf("explicit-function-view:sorted_input=%v", sort.Float64sAreSorted(given)))
+				w.Add(vgen.App("CExplicitRaw", fnums(given), fnums(ob.bounds), vals, ob.coq()), cd, kind, true)
+			}
+		})
+	}
+	rawVals := []float64{-1, 0, 3, 5, 7, 10, 11, 5, 10}
+	for _, g := range [][]float64{{10, 5, 0}, {5, 5, 10}, {0, 5, 10}, {5, 0, 10, 0}, {10}, {}, {0, math.Copysign(0, -1), 5}, {3, 3, 3}} {
+		addExplicitRaw(g, false, false, [][]float64{rawVals}, nil, "corpus-function-view")
+		addExplicitRaw(g, true, true, nil, [][]int64{{-1, 0, 3, 5}, {7, 10, 11, 5}}, "corpus-function-view")
+	}
+	for i := 0; i < o.Count(50, 800); i++ {
+		g := genBounds(r)
+		switch r.Intn(4) {
+		case 0: // reversed
+			for a, b := 0, len(g)-1; a < b; a, b = a+1, b-1 {
+				g[a], g[b] = g[b], g[a]
+			}
+		case 1: // shuffled
+			for a := len(g) - 1; a > 0; a-- {
+				b := r.Intn(a + 1)
+				g[a], g[b] = g[b], g[a]
+			}
+		case 2: // duplicates somewhere, then shuffled a little
+			if len(g) > 0 {
+				g = append(g, g[r.Intn(len(g))], g[r.Intn(len(g))])
+				a, b := r.Intn(len(g)), r.Intn(len(g))
+				g[a], g[b] = g[b], g[a]
+			}
+		}
+		isInt := r.Chance(1, 4)
+		nb := vgen.Pick(r, []int{1, 1, 2})
+		var fb [][]float64
+		var ib [][]int64
+		for k := 0; k < nb; k++ {
+			n := vgen.Pick(r, []int{2, 4, 7, 12})
+			if isInt {
+				vs := genInts(r, n)
+				for j := range vs {
+					if len(g) > 0 && r.Bool() {
+						if b := vgen.Pick(r, g); math.Abs(b) < 1<<52 {
+							vs[j] = int64(math.Floor(b)) + int64(r.Intn(3)) - 1
+						}
+					}
+				}
+				ib = append(ib, vs)
+			} else {
+				vs := genSeq(r, n)
+				for j := range vs {
+					if r.Chance(2, 3) {
+						vs[j] = nearBounds(r, g, vs[j])
+					}
+					if math.IsInf(vs[j], 0) {
+						vs[j] = math.Copysign(math.MaxFloat64, vs[j])
+					}
+				}
+				fb = append(fb, vs)
+			}
+		}
+		addExplicitRaw(g, r.Bool(), isInt, fb, ib, "explicit-function-view")
+	}
+
 	addExplicit([]float64{0, 5, 10}, 0, false, false, [][]float64{{5, -3, 7, 11, 0, 10}}, nil, "corpus-explicit")
 	addExplicit([]float64{}, 0, true, false, [][]float64{{1, 2}, {3}}, nil, "corpus-explicit")
 	addExplicit([]float64{1 << 52}, 0, false, true, nil, [][]int64{{1 << 52, 1<<52 + 1, 1<<52 - 1, -(1 << 53), 1 << 53}}, "corpus-explicit")
